@@ -19,6 +19,7 @@ import EmdProofs.Zipper
 import EmdProps.C08
 
 set_option linter.unusedSimpArgs false
+set_option linter.unusedVariables false
 
 namespace EmdProps
 open EmdModel
@@ -616,6 +617,136 @@ theorem C09_target_below (over : Bool) (f : Obj) (F Rt S D : Tree) (body' : List
   · simp only [appendInto, appendCore, hname, hroot, hD, hf, hrm, hval, List.isEmpty_cons, bind, Except.bind, pure,
       Except.pure, Bool.not_true, Bool.false_and, Bool.false_eq_true, if_false, hzip]
   · exact replaceAt_wf (n0 :: p0) (withBody F body') (.mk si sk) (.mk si sk') hF1w hS1 hwf' rfl (fun h => hSd h)
+
+/-- C09, targeted plain APPEND of a node present in both with `tree=True`: in append mode the node itself is never
+    overwritten, so this is the merge of its children — the same result as `tree=None` (`C09_target_below`) -/
+theorem C09_target_yes_append (f : Obj) (F Rt S D : Tree) (body' : List (String × Obj))
+    (n0 : String) (p0 : List String)
+    (hF : F.rootedWF CT DT = true) (hR : Rt.rootedWF CT DT = true) (hname : Rt.name = F.name)
+    (hf : alookup F.name f.kids = some (encode F)) (hroot : (rootGroups f).contains F.name = true)
+    (hmdname : "metadatabundle" ∉ names F.kids)
+    (hmd : mdBody false F.info.body (mdEntries Rt.info) = .ok body')
+    (hS : F.at (n0 :: p0) = some S) (hD : Rt.at (n0 :: p0) = some D) :
+    appendInto DT f Rt (n0 :: p0) false .yes none = appendInto DT f Rt (n0 :: p0) false .below none := by
+  simp only [Tree.rootedWF, Bool.and_eq_true, beq_iff_eq] at hF hR
+  obtain ⟨hF1w, hrm⟩ := rootMd_encode false F Rt.info body' hF.1.1 hmdname hmd
+  have hS1 : (withBody F body').at (n0 :: p0) = some S := by rw [withBody_at]; exact hS
+  have hval := validate_inside (ct := CT) (dt := DT) (n0 :: p0) (withBody F body') S hF1w hS1
+  simp only [appendInto, appendCore, hname, hroot, hD, hf, hrm, hval, List.isEmpty_cons, bind, Except.bind, pure,
+    Except.pure, Bool.not_true, Bool.false_and, Bool.false_eq_true, if_false, overThenAppend, Bool.and_false,
+    beq_self_eq_true, Bool.true_or, if_true]
+
+/-- C09, targeted plain APPEND of a node present in both with `tree=False`: nothing is written for the node (it is in
+    the file already and append never overwrites); only the root metadata are merged -/
+theorem C09_target_no_append (f : Obj) (F Rt S D : Tree) (body' : List (String × Obj))
+    (n0 : String) (p0 : List String)
+    (hF : F.rootedWF CT DT = true) (hR : Rt.rootedWF CT DT = true) (hname : Rt.name = F.name)
+    (hf : alookup F.name f.kids = some (encode F)) (hroot : (rootGroups f).contains F.name = true)
+    (hmdname : "metadatabundle" ∉ names F.kids)
+    (hmd : mdBody false F.info.body (mdEntries Rt.info) = .ok body')
+    (hS : F.at (n0 :: p0) = some S) (hD : Rt.at (n0 :: p0) = some D) :
+    appendInto DT f Rt (n0 :: p0) false .no none
+      = .ok (f.setKids (areplace F.name (encode (withBody F body')) f.kids)) := by
+  simp only [Tree.rootedWF, Bool.and_eq_true, beq_iff_eq] at hF hR
+  obtain ⟨hF1w, hrm⟩ := rootMd_encode false F Rt.info body' hF.1.1 hmdname hmd
+  have hS1 : (withBody F body').at (n0 :: p0) = some S := by rw [withBody_at]; exact hS
+  have hval := validate_inside (ct := CT) (dt := DT) (n0 :: p0) (withBody F body') S hF1w hS1
+  simp only [appendInto, appendCore, hname, hroot, hD, hf, hrm, hval, List.isEmpty_cons, bind, Except.bind, pure,
+    Except.pure, Bool.not_true, Bool.false_and, Bool.false_eq_true, if_false, overThenAppend, Bool.and_false]
+  rfl
+
+theorem tree_at_append : ∀ (p : List String) (t s : Tree) (n : String) (c : Tree), t.at p = some s → findKid n s.kids = some c →
+    t.at (p ++ [n]) = some c
+  | [], t, s, n, c, h, hc => by
+    simp only [Tree.at, Option.some.injEq] at h; subst h
+    simp [Tree.at, hc]
+  | m :: p, t, s, n, c, h, hc => by
+    simp only [Tree.at] at h
+    simp only [List.cons_append, Tree.at]
+    cases hk : findKid m t.kids with
+    | none => simp [hk] at h
+    | some k => simp only [hk] at h ⊢; exact tree_at_append p k s n c h hc
+
+/-- a successful `_append_branch` step for a child that is in the file, in append-over mode, is the overwrite of that
+    child followed by the merge below it -/
+theorem appendOne_as_two_writes (dt : List String) (keys0 : List String) (pg X : Obj) (D : Tree)
+    (hk : keys0.contains D.name = true) (h : appendOne dt true keys0 pg D = .ok X) :
+    (overwriteSingleNode dt pg D.info).bind (fun g' => updateAt (fun g => appendBranch dt true g D) g' [D.name]) = .ok X := by
+  cases D with
+  | mk di dk =>
+    simp only [Tree.name_mk, Tree.info_mk] at hk ⊢
+    rw [appendOne] at h
+    simp only [hk, Bool.not_true, Bool.false_eq_true, if_false, if_true, bind, Except.bind] at h ⊢
+    cases ho : overwriteSingleNode dt pg di with
+    | error e => simp [ho] at h
+    | ok g' =>
+      simp only [ho] at h ⊢
+      simp only [updateAt]
+      cases hl : alookup di.name g'.kids with
+      | none => simp [hl] at h
+      | some sub =>
+        simp only [hl] at h ⊢
+        simp only [appendBranch, appendNode, Tree.kids_mk, bind, Except.bind]
+        cases ha : appendKids dt true (taggedKeys sub) sub dk with
+        | error e => simp [ha] at h
+        | ok sub' => simp only [ha] at h ⊢; exact h
+
+/-- C09, targeted APPEND-OVER of a node present in both with `tree=True`: the node's content and metadata are replaced by
+    the runtime node's, its file-only children are kept, its runtime children are merged in by the replace-union rule —
+    exactly what the whole-root append-over does to that node (`appendOne_spec`), and nothing else in the tree changes -/
+theorem C09_target_over_branch (f : Obj) (F Rt P D : Tree) (body' : List (String × Obj)) (q : List String)
+    (hF : F.rootedWF CT DT = true) (hR : Rt.rootedWF CT DT = true) (hname : Rt.name = F.name)
+    (hf : alookup F.name f.kids = some (encode F)) (hroot : (rootGroups f).contains F.name = true)
+    (hmdname : "metadatabundle" ∉ names F.kids)
+    (hmd : mdBody true F.info.body (mdEntries Rt.info) = .ok body')
+    (hP : (withBody F body').at q = some P) (hD : Rt.at (q ++ [D.name]) = some D)
+    (hin : (findKid D.name P.kids).isSome = true)
+    (hcompat : compatOne true P.info P.kids (akeys P.info.body ++ names P.kids ++ [D.name]) D = true) :
+    ∃ pk1, (Tree.mk P.info pk1).wf CT DT = true ∧
+      appendInto DT f Rt (q ++ [D.name]) true .yes none
+        = .ok (f.setKids (areplace F.name (encode ((withBody F body').replaceAt q (.mk P.info pk1))) f.kids)) ∧
+      (∀ m, m ≠ D.name → findKid m pk1 = findKid m P.kids) ∧
+      (∀ p, cK pk1 D.name p = combine true (cK P.kids D.name p) ((D.at p).map Tree.info)) := by
+  simp only [Tree.rootedWF, Bool.and_eq_true, beq_iff_eq] at hF hR
+  obtain ⟨hF1w, hrm⟩ := rootMd_encode true F Rt.info body' hF.1.1 hmdname hmd
+  obtain ⟨hPw, _⟩ := wf_at q (withBody F body') P hF1w hP
+  obtain ⟨hDw, hDd⟩ := wf_at (q ++ [D.name]) Rt D hR.1.1 hD
+  obtain ⟨S, hS⟩ := Option.isSome_iff_exists.mp hin
+  cases P with
+  | mk pi pk =>
+  simp only [Tree.info_mk, Tree.kids_mk] at hcompat hin hS
+  have hkeys : ([D.name] : List String).contains D.name = (findKid D.name pk).isSome := by simp [hin]
+  obtain ⟨pk1, hwf1, heq1, hframe1, _, hspec1⟩ := appendOne_spec (ct := CT) (dt := DT) true D pi pk [D.name]
+    (akeys pi.body ++ names pk ++ [D.name]) hPw hDw (hDd (by cases q <;> simp)) hcompat
+    (fun m hm => by
+      simp only [List.mem_append]
+      cases hm with
+      | inl h => exact Or.inl (Or.inl h)
+      | inr h => exact Or.inl (Or.inr h)) hkeys
+  refine ⟨pk1, hwf1, ?_, hframe1, hspec1⟩
+  -- the two writes of `overThenAppend` are one write of the composed function at the parent
+  have hG := appendOne_as_two_writes DT [D.name] (encode (.mk pi pk)) _ D (by simp) heq1
+  have hzip := atPath_encode (ct := CT) (dt := DT)
+    (fun pg => (overwriteSingleNode DT pg D.info).bind (fun g' => updateAt (fun g => appendBranch DT true g D) g' [D.name]))
+    q (withBody F body') (.mk pi pk) (.mk pi pk1) hF1w hP hG rfl
+  have hcomp : (updateAt (fun pg => overwriteSingleNode DT pg D.info) (encode (withBody F body')) q).bind
+      (fun rg1 => updateAt (fun g => appendBranch DT true g D) rg1 (q ++ [D.name]))
+      = .ok (encode ((withBody F body').replaceAt q (.mk pi pk1))) := by
+    have h1 : (fun rg1 => updateAt (fun g => appendBranch DT true g D) rg1 (q ++ [D.name]))
+        = (fun rg1 => updateAt (fun x => updateAt (fun g => appendBranch DT true g D) x [D.name]) rg1 q) := by
+      funext rg1; exact updateAt_append _ q [D.name] rg1
+    rw [h1, updateAt_bind]
+    exact hzip
+  have hS1 : (withBody F body').at (q ++ [D.name]) = some S := tree_at_append q _ _ _ S hP hS
+  have hval := validate_inside (ct := CT) (dt := DT) (q ++ [D.name]) (withBody F body') S hF1w hS1
+  have hne : (q ++ [D.name]).isEmpty = false := by cases q <;> rfl
+  simp only [bind, Except.bind] at hcomp
+  simp only [appendInto, appendCore, hname, hroot, hD, hf, hrm, hval, hne, bind, Except.bind, pure, Except.pure,
+    Bool.not_true, Bool.false_and, Bool.false_eq_true, if_false, overThenAppend, Bool.true_and, beq_self_eq_true,
+    Bool.true_or, if_true, List.getLast?_append, List.getLast?_singleton, Option.some_or, List.dropLast_concat, atPath,
+    bne_self_eq_false]
+  simp only [List.dropLast_append_of_ne_nil, List.dropLast_singleton, List.append_nil, ne_eq, List.cons_ne_self,
+    not_false_eq_true, hcomp, Tree.info_mk]
 
 /-- what "exactly there, and nothing else" means for all three targeted theorems: after replacing the subtree at `p`,
     the new subtree is what is read at `p` (and below), and the content of every node whose path does not pass through
